@@ -3,7 +3,7 @@
 (*                                                                                                      *)
 (* Repository: three packages -- the root package, p, and the nested package p/q -- plus the plain      *)
 (* sub-directory p/d of package p.  Five target slots:                                                  *)
-(*   t1 t2 //p:..   t3 //p/q:..   t4 //p:.. (a gentest: data files, data labels, no_test_output)        *)
+(*   t1 t2 //p:..   t3 //p/q:..   t4 //p:.. (usually a gentest: data files, data labels, no_test_output)*)
 (*   t5 //:..  (root package)                                                                           *)
 (* Files f1 f2 (p), e1 e2 (p/d), g1 (p/q), r1 (root).  A target lists source ITEMS of its own package: *)
 (* a file, or the directory D = p/d (which covers e1 and e2).  Dependencies point to lower slots, as    *)
@@ -29,7 +29,7 @@
 (*     Flaw_NoOutput  no_test_output is not part of RuleHash                                            *)
 EXTENDS Integers, Sequences, FiniteSets, TLC, Json
 CONSTANTS Flaw_Provides, Flaw_NoOutput,
-          Base,      \* 0: every base repository; 1..5: only that one
+          Base,      \* 0: every base repository; 1..6: only that one
           Combine,   \* TRUE: also definition edits combined with one changed file
           Emit
 T == 1..5
@@ -100,8 +100,12 @@ AllBases ==
      \*    (a data label is never replaced by what it provides), the root target does not require
      <<Def("gen", {"e1", "D"}, {}, {}, {}, 0, FALSE),  Def("fg", {"D"}, {}, {}, {}, 1, FALSE),
        Def("gen", {"g1"}, {}, {2}, {}, 0, TRUE),       Def("test", {}, {"f1"}, {}, {2}, 0, TRUE),
-       Def("gen", {"r1"}, {}, {2, 3}, {}, 0, FALSE)>> >>
-Bases == IF Base = 0 THEN {AllBases[i] : i \in 1..5} ELSE {AllBases[Base]}
+       Def("gen", {"r1"}, {}, {2, 3}, {}, 0, FALSE)>>,
+     \* 6: the consumer of a provider in the nested package has a dependent of its own
+     <<Def("gen", {"f1"}, {}, {}, {}, 0, FALSE),       Def("gen", {"f2"}, {}, {}, {}, 0, FALSE),
+       Def("fg", {"g1"}, {}, {}, {}, 1, FALSE),        Def("gen", {"e1"}, {}, {3}, {}, 0, TRUE),
+       Def("gen", {"r1"}, {}, {4}, {}, 0, FALSE)>> >>
+Bases == IF Base = 0 THEN {AllBases[i] : i \in 1..6} ELSE {AllBases[Base]}
 
 \* one-field edits of one target's definition
 Toggle(X, x) == IF x \in X THEN X \ {x} ELSE X \cup {x}
